@@ -32,6 +32,7 @@ type Cfg struct {
 	Alias       int      `json:"alias,omitempty"`        // naming scheme of the real stages (the harness keeps its own unique keys)
 	ErrKind     int      `json:"err_kind,omitempty"`     // which error value a failing task returns (0 plain, 1 context.DeadlineExceeded, 2 context.Canceled, 3 wrapped deadline, 4 interpreter exit status)
 	Shared      bool     `json:"shared,omitempty"`       // every leaf stage refers to ONE task object; the stage is told apart by a stage-level env entry
+	ViaConfig   bool `json:"via_config,omitempty"`   // the graphs are built by the configuration builder from task and stage definitions
 	SharedInner bool     `json:"shared_inner,omitempty"` // inner pipelines with identical definitions are ONE ExecutionGraph object (two stages that say `pipeline: X`)
 	NoPark      bool     `json:"no_park,omitempty"`      // tasks do not park: one canonical completion order (wide graphs)
 	Attrs       int      `json:"attrs,omitempty"`        // task attributes that must be irrelevant to scheduling: 1 interactive, 2 timeout, 4 export_as, 8 context name, 16 dir
@@ -78,6 +79,9 @@ func (c Cfg) extras() string {
 	}
 	if c.SharedInner {
 		x += " shared-inner-graph"
+	}
+	if c.ViaConfig {
+		x += " via-config-builder"
 	}
 	if c.NoPark {
 		x += " no-park"
